@@ -720,26 +720,62 @@ Record case := mk_case {
   cs_obs : list obs        (* the pages the implementation returned, in the order visited *)
 }.
 
+(** * Walks over any kind of connection: follow endCursor with first = k (startCursor with last = k) through
+      the page function [get] (thunder-managed, externally managed, ManualPaginationWithFallback) *)
+Fixpoint walk_forward_by (get : pargs -> conn + perr) (fuel : nat) (a : pargs) (k : Z)
+         (after : option string) : list (conn + perr) * bool :=
+  match fuel with
+  | O => ([], false)
+  | S fuel' =>
+      match get (with_first_after a k after) with
+      | inr e => ([inr e], true)
+      | inl c =>
+          if c_next c then
+            let '(rest, fin) := walk_forward_by get fuel' a k (Some (c_end c)) in
+            (inl c :: rest, fin)
+          else ([inl c], true)
+      end
+  end.
+
+Fixpoint walk_backward_by (get : pargs -> conn + perr) (fuel : nat) (a : pargs) (k : Z)
+         (before : option string) : list (conn + perr) * bool :=
+  match fuel with
+  | O => ([], false)
+  | S fuel' =>
+      match get (with_last_before a k before) with
+      | inr e => ([inr e], true)
+      | inl c =>
+          if c_prev c then
+            let '(rest, fin) := walk_backward_by get fuel' a k (Some (c_start c)) in
+            (inl c :: rest, fin)
+          else ([inl c], true)
+      end
+  end.
+
+(** the page function of a case *)
+Definition page_fn (c : case) : pargs -> conn + perr :=
+  match cs_ext c with
+  | XNone => get_connection base64 (cs_cfg c) (cs_nodes c)
+  | XManual x => get_connection_ext base64 (cs_cfg c) (cs_nodes c) x
+  | XDual fb x => get_connection_dual base64 fb (cs_cfg c) (cs_nodes c) x
+  end.
+
 (** mismatch codes: 1 connection JSON differs, 2 error / success or error class differs,
     3 forward walk differs, 4 backward walk differs *)
 Definition check_case (c : case) : list nat :=
   match cs_kind c with
   | KPage =>
-      let m := obs_of (match cs_ext c with
-                       | XNone => get_connection base64 (cs_cfg c) (cs_nodes c) (cs_args c)
-                       | XManual x => get_connection_ext base64 (cs_cfg c) (cs_nodes c) x (cs_args c)
-                       | XDual fb x => get_connection_dual base64 fb (cs_cfg c) (cs_nodes c) x (cs_args c)
-                       end) in
+      let m := obs_of (page_fn c (cs_args c)) in
       match cs_obs c with
       | [o] => if obs_eqb m o then []
                else match m, o with ObsConn _, ObsConn _ => [1] | _, _ => [2] end
       | _ => [2]
       end
   | KWalkF k =>
-      let '(pages, _) := walk_forward base64 (cs_cfg c) (cs_nodes c) (cs_args c) k in
+      let '(pages, _) := walk_forward_by (page_fn c) (S (List.length (cs_nodes c))) (cs_args c) k None in
       if obs_list_eqb (map obs_of pages) (cs_obs c) then [] else [3]
   | KWalkB k =>
-      let '(pages, _) := walk_backward base64 (cs_cfg c) (cs_nodes c) (cs_args c) k in
+      let '(pages, _) := walk_backward_by (page_fn c) (S (List.length (cs_nodes c))) (cs_args c) k None in
       if obs_list_eqb (map obs_of pages) (cs_obs c) then [] else [4]
   end.
 
